@@ -105,7 +105,12 @@ func dfs(name string, procc *runtime.Script, sPath *searchPath, p *param) error 
 
 	for _, expr := range procc.CallRef {
 		cName, err := getParamRefScript(expr)
-		p.namePos = expr.NamePos
+		// the call site in this script; a cycle is reported at the call
+		// site of the script being linked (the root of the search)
+		namePos := expr.NamePos
+		if len(sPath.path) == 1 {
+			p.namePos = namePos
+		}
 		if err != nil {
 			return err
 		}
@@ -114,17 +119,17 @@ func dfs(name string, procc *runtime.Script, sPath *searchPath, p *param) error 
 			if err, ok := p.allErrNg[cName]; ok {
 				if e, ok := err.(*errchain.PlError); ok {
 					return e.Copy().ChainAppend(
-						procc.Name, p.namePos)
+						procc.Name, namePos)
 				}
 				return err
 			}
-			return errchain.NewErr(procc.Name, p.namePos,
+			return errchain.NewErr(procc.Name, namePos,
 				fmt.Sprintf("script %s not found", cName))
 		} else {
 			expr.PrivateData = cNg
 			if err := dfs(cName, cNg, sPath, p); err != nil {
 				if e, ok := err.(*errchain.PlError); ok {
-					return e.Copy().ChainAppend(procc.Name, p.namePos)
+					return e.Copy().ChainAppend(procc.Name, namePos)
 				}
 				return err
 			}
